@@ -35,9 +35,10 @@ def main():
             "engine": "mon",
             "level_claimed": {"category": mod.LEVEL,
                               "text": getattr(mod, "LEVEL_TEXT", None) or (
-                                  "Held on the executions produced: seeded hostile workloads drive the real code while a "
-                                  "runtime monitor with an independent oracle observes every case; quantifiers are sampled, "
-                                  "never enumerated, except where the evidence says exhaustive."),
+                                  "Held on the executions produced (never 'verified'): seeded hostile workloads drive the real code "
+                                  "while a runtime monitor with an independent oracle observes every case; quantifiers are sampled, "
+                                  "never enumerated, except where the evidence says exhaustive. This check: " +
+                                  " ".join((mod.__doc__ or "").split())[:900]),
                               "design_ref": "DESIGN.md section 4, " + pid},
             "level_note": "; ".join(getattr(mod, "ASSUMPTIONS", [])) or "documented input domain of DESIGN.md section 2",
             "technique": mod.TECHNIQUE,
